@@ -153,7 +153,7 @@ pub fn probes(run: &RunResult) -> BTreeMap<&'static str, u64> {
     if t.fired.iter().any(|f| f.kind == "EINTR" || f.kind == "short") {
         out.insert("retry_paths", 1);
     }
-    let stderr = String::from_utf8_lossy(&run.stderr);
+    let stderr = crate::oracle::strip_ansi(&String::from_utf8_lossy(&run.stderr));
     let has_err = crate::oracle::has_error_record(&run.stderr);
     if has_err && !run.stdout.is_empty() {
         out.insert("worker_error_and_diff", 1);
